@@ -78,17 +78,33 @@ func posFields(n ast.Node) map[string]token.Pos {
 
 // posObserve restores the files into one FileSet and projects the position space.
 func posObserve(files []*dst.File, names []string) ([]posFile, string) {
+	return posObserveMode(files, names, false)
+}
+
+// posObserveMode restores ALL files first (with one Restorer, or with one re-used FileRestorer) and
+// only then projects each of them: an earlier file must still be coherent after later restores.
+func posObserveMode(files []*dst.File, names []string, reuseFileRestorer bool) ([]posFile, string) {
 	r := decorator.NewRestorer()
+	fr := r.FileRestorer()
 	var out []posFile
+	asts := make([]*ast.File, len(files))
 	for fi, df := range files {
-		var af *ast.File
 		var err error
-		if msg := guard(func() { af, err = r.RestoreFile(df) }); msg != "" {
+		if msg := guard(func() {
+			if reuseFileRestorer {
+				asts[fi], err = fr.RestoreFile(df)
+			} else {
+				asts[fi], err = r.RestoreFile(df)
+			}
+		}); msg != "" {
 			return nil, names[fi] + ": " + msg
 		}
 		if err != nil {
 			return nil, names[fi] + ": " + err.Error()
 		}
+	}
+	for fi := range files {
+		af := asts[fi]
 		pf := posFile{name: names[fi], Positions: []int{}, Comments: []int{}, RankR: []string{}, RankF: []string{}, Lines: []int{}}
 		tf := r.Fset.File(af.Pos())
 		if tf == nil {
@@ -291,10 +307,14 @@ func checkC12(c *Ctx) {
 			dfs = append(dfs, df)
 			names = append(names, files[i].Path)
 		}
+		reuse := len(g.idx) > 1 && gi%2 == 0
 		key := fmt.Sprintf("%s|%v", g.mode, names)
+		if reuse {
+			key = "reused-FileRestorer|" + key
+		}
 		keys[gi] = key
 		c.Eval(key, g.mode != "plain" || len(g.idx) > 1)
-		obs, msg := posObserve(dfs, names)
+		obs, msg := posObserveMode(dfs, names, reuse)
 		if msg != "" {
 			c.Fail(Finding{Sig: "restore-fails", Input: key, What: msg, Replay: obj{"kind": "c12", "paths": names, "mode": g.mode, "seed": seeds[gi]}})
 			return
